@@ -4,6 +4,8 @@ on finite data (enum discriminants, character classes, booleans): decision table
 It evaluates the *extracted expression tree* over concrete representatives of a finite domain chosen by the rule
 (constant propagation over a finite lattice).  Anything outside the supported fragment raises Unsupported, which
 the caller turns into a fail-closed anchor report.  sea-query itself is never compiled-and-run by this."""
+import re
+
 from . import hir as H
 from .facts import walk
 
@@ -211,12 +213,27 @@ class Interp:
                 raise Unsupported("literal pattern on opaque value")
             return lv == v
         if k == "range":
-            if not isinstance(v, Ch):
-                raise Unsupported("range pattern on non-char")
-            lo, hi = pat.get("lo"), pat.get("hi")
-            loc = self.lit(lo).c if lo else "\0"
-            hic = self.lit(hi).c if hi else "\U0010ffff"
-            return loc <= v.c <= hic if "Included" in pat.get("end", "Included") else loc <= v.c < hic
+            def side(x):
+                if x is None:
+                    return None
+                if isinstance(x, dict) and x.get("t") == "path":
+                    return self.ev(x["path"], {}, 0)          # a named constant
+                if isinstance(x, dict):
+                    return self.lit(x)
+                raise Unsupported("range pattern bound")
+            lo, hi = side(pat.get("lo")), side(pat.get("hi"))
+            incl = "Included" in pat.get("end", "Included")
+            if isinstance(v, Ch):
+                loc = lo.c if isinstance(lo, Ch) else ("\0" if lo is None else None)
+                hic = hi.c if isinstance(hi, Ch) else ("\U0010ffff" if hi is None else None)
+                if loc is None or hic is None:
+                    raise Unsupported("range pattern bounds")
+                return loc <= v.c <= hic if incl else loc <= v.c < hic
+            if isinstance(v, int) and not isinstance(v, bool):
+                if (lo is not None and not isinstance(lo, int)) or (hi is not None and not isinstance(hi, int)):
+                    raise Unsupported("range pattern bounds")
+                return (lo is None or lo <= v) and (hi is None or (v <= hi if incl else v < hi))
+            raise Unsupported("range pattern on %r" % (v,))
         if k == "or":
             for alt in pat["alts"]:
                 e2 = dict(env)
@@ -250,6 +267,12 @@ class Interp:
             if not isinstance(v, tuple) or len(v) != len(pat["subs"]):
                 raise Unsupported("tuple pattern arity")
             return all(self.bind(s, x, env) for s, x in zip(pat["subs"], v))
+        if k == "variant" and "Const" in ((pat.get("path") or {}).get("dk") or "") and not pat.get("subs") and not pat.get("fields"):
+            # a named constant used as a pattern (`CP_SPACE => ..`)
+            cv = self.ev(pat["path"], {}, 0)
+            if isinstance(cv, Opaque) or isinstance(v, Opaque):
+                raise Unsupported("constant pattern on opaque value")
+            return cv == v
         if k == "variant":
             d = pat["path"].get("def")
             if isinstance(v, Opaque):
@@ -321,6 +344,8 @@ class Interp:
             return l["v"]
         if t == "byte":
             return l["v"]
+        if t == "bytes":
+            return list(l["v"])         # b"..": the bytes
         raise Unsupported("literal %s" % t)
 
     # ---- expressions ---------------------------------------------------------------------------
@@ -410,6 +435,14 @@ class Interp:
                 return l != r
             if isinstance(l, Ch) and isinstance(r, Ch):
                 l, r = l.c, r.c
+            if op in (">>", "<<", "&", "|", "^", "/", "%") and isinstance(l, int) and isinstance(r, int) and not isinstance(l, bool) and not isinstance(r, bool):
+                if op in ("/", "%") and r == 0:
+                    raise Diverged("division by zero")
+                return {">>": l >> r if op == ">>" else 0, "<<": (l << r) if op == "<<" else 0, "&": l & r, "|": l | r, "^": l ^ r,
+                        "/": (abs(l) // abs(r)) * (1 if (l >= 0) == (r >= 0) else -1) if op == "/" else 0,
+                        "%": (abs(l) % abs(r)) * (1 if l >= 0 else -1) if op == "%" else 0}[op]
+            if op in ("&", "|", "^") and isinstance(l, bool) and isinstance(r, bool):
+                return {"&": l and r, "|": l or r, "^": l != r}[op]
             if op in ("<", ">", "<=", ">=", "+", "-", "*"):
                 try:
                     return {"<": l < r, ">": l > r, "<=": l <= r, ">=": l >= r, "+": l + r if op == "+" else None,
@@ -506,8 +539,14 @@ class Interp:
         if k == "assign":
             v = self.ev(e["r"], env, depth)
             l = H.peel_ref(e["l"])
+            while l.get("k") == "unary" and l.get("op") == "deref":
+                l = H.peel_ref(l["e"])
             if l.get("k") == "local":
-                env[l["name"]] = v
+                cur_ = env.get(l["name"])
+                if isinstance(cur_, FieldRef):
+                    cur_.set(v)
+                else:
+                    env[l["name"]] = v
                 return ()
             if l.get("k") == "field":
                 base = self.ev(l["base"], env, depth)
@@ -516,6 +555,14 @@ class Interp:
                     return ()
                 if H.place(l):
                     env["@" + H.place(l)] = v
+                    return ()
+            if l.get("k") == "index":
+                base = self.ev(l["base"], env, depth)
+                i_ = self.ev(l["idx"], env, depth)
+                if isinstance(base, list) and isinstance(i_, int) and not isinstance(i_, bool):
+                    if not (0 <= i_ < len(base)):
+                        raise Diverged("index %d out of range (len %d)" % (i_, len(base)))
+                    base[i_] = v
                     return ()
             raise Unsupported("assignment target")
         if k == "assignop":
@@ -589,12 +636,34 @@ class Interp:
                     raise Unsupported("struct base")
                 out_.update(b_)
             out_.update((x["name"], self.ev(x["e"], env, depth)) for x in e["fields"])
+            if (e.get("adt") or "").startswith("core::ops::range::"):
+                return _Range(out_.get("start"), out_.get("end"), False)
             return out_
         if k == "closure":
             return ("__closure", e, env)
+        if k == "repeat":
+            m_ = re.search(r";\s*(\d+)\]$", self.f.ty(e.get("ty")) or "")
+            if not m_:
+                raise Unsupported("array repeat of unknown length")
+            x_ = self.ev(e["e"], env, depth)
+            return [x_] * int(m_.group(1))
         if k == "index":
             b = self.ev(e["base"], env, depth)
             i = self.ev(e["idx"], env, depth)
+            if isinstance(i, _Range) and isinstance(b, (list, str)):
+                data = b if isinstance(b, list) else b.encode("utf-8")
+                lo = 0 if i.start is None else i.start
+                hi = len(data) if i.end is None else (i.end + 1 if i.inclusive else i.end)
+                if not (isinstance(lo, int) and isinstance(hi, int)):
+                    raise Unsupported("range bounds")
+                if not (0 <= lo <= hi <= len(data)):
+                    raise Diverged("range %r out of bounds (len %d)" % (i, len(data)))
+                if isinstance(b, list):
+                    return b[lo:hi]
+                try:
+                    return data[lo:hi].decode("utf-8")
+                except UnicodeDecodeError:
+                    raise Diverged("slice inside a character")
             if isinstance(b, (list, str)) and isinstance(i, int) and not isinstance(i, bool):
                 if not (0 <= i < len(b)):
                     raise Diverged("index %d out of range (len %d)" % (i, len(b)))      # a panic in Rust
@@ -838,6 +907,8 @@ class Interp:
                 return moved
             self.store(target, new_v, env, depth)
             return old_v
+        if decl == "core::ops::range::RangeInclusive::<Idx>::new" and e.get("k") == "call" and len(e.get("args") or []) == 2:
+            return _Range(self.ev(e["args"][0], env, depth), self.ev(e["args"][1], env, depth), True)
         if decl == "core::option::Option::<T>::take" and e.get("k") == "mcall" and not e.get("args"):
             old_v = self.ev(e["recv"], env, depth)
             self.store(e["recv"], None, env, depth)
@@ -882,6 +953,8 @@ class Interp:
                 return v
             if isinstance(v, (list, tuple)) and not (isinstance(v, tuple) and v and v[0] in ("__some", "__closure")):
                 return {"__iter": list(v), "i": 0}
+            if isinstance(v, _Range):
+                return {"__iter": v.items(), "i": 0}
             raise Unsupported("into_iter of %r" % (v,))
         if decl == "core::iter::traits::iterator::Iterator::next":
             v = self.ev(e["recv"] if e.get("k") == "mcall" else e["args"][0], env, depth)
@@ -969,6 +1042,14 @@ class Interp:
                 return ("__some", x) if b else None
             clo = self.ev(e["args"][0], env, depth)
             return ("__some", self.apply_closure(clo, [], depth + 1)) if b else None
+        if decl in ("core::convert::From::from", "core::convert::Into::into") and len(e.get("args") or []) + (1 if e.get("k") == "mcall" else 0) == 1:
+            ty_ = self.f.ty(e.get("ty")) or ""
+            if ty_ in ("usize", "isize", "u8", "u16", "u32", "u64", "u128", "i8", "i16", "i32", "i64", "i128", "char"):
+                v0 = self.ev(e["recv"] if e.get("k") == "mcall" else e["args"][0], env, depth)
+                if isinstance(v0, int) and not isinstance(v0, bool):
+                    return Ch(chr(v0)) if ty_ == "char" else v0      # lossless integer widening / u8 -> char
+                if isinstance(v0, Ch) and ty_ in ("u32", "u64", "i64", "u128", "i128"):
+                    return ord(v0.c)
         if decl in ("core::convert::From::from", "alloc::string::ToString::to_string", "alloc::borrow::ToOwned::to_owned") and e.get("k") == "call" and len(e.get("args") or []) == 1:
             ty_ = self.f.ty(e.get("ty")) or ""
             if ty_ in ("alloc::string::String", "alloc::borrow::Cow<'_, str>", "alloc::boxed::Box<str>"):
@@ -987,6 +1068,13 @@ class Interp:
             if isinstance(a_, int) and isinstance(b_, int) and not isinstance(a_, bool) and not isinstance(b_, bool):
                 return {"min": min(a_, b_), "max": max(a_, b_), "saturating_sub": max(a_ - b_, 0), "abs_diff": abs(a_ - b_)}[name]
             raise Unsupported("%s on %r, %r" % (name, a_, b_))
+        if e.get("k") == "mcall" and name in ("collect", "from_iter") and not e.get("args") and (self.f.ty(e.get("ty")) or "") == "alloc::string::String":
+            recv = self.ev(e["recv"], env, depth)
+            if isinstance(recv, dict) and "__iter" in recv:
+                recv = recv["__iter"][recv["i"]:]
+            if isinstance(recv, list) and all(isinstance(x, (Ch, str)) for x in recv):
+                return "".join(x.c if isinstance(x, Ch) else x for x in recv)       # chars / pieces collected into a String
+            raise Unsupported("collect::<String>() of %r" % (recv,))
         if e.get("k") == "mcall" and name in ITER_BUILTINS:
             recv = self.ev(e["recv"], env, depth)
             if isinstance(recv, (str, list)):
@@ -1037,7 +1125,38 @@ class Interp:
                     return v
                 raise Unsupported("into %s -> %s" % (rty, ty))
             return v
-        if e.get("k") == "mcall" and name in ("push", "pop", "insert", "extend", "append", "clear") and (decl.startswith("alloc::vec::Vec") or c.startswith("alloc::vec::Vec")):
+        if e.get("k") == "mcall" and name in ("reserve", "reserve_exact", "shrink_to_fit") and (decl.startswith("alloc::vec::Vec") or decl.startswith("alloc::string::String")):
+            for a_ in e.get("args") or []:
+                self.ev(a_, env, depth)
+            return ()           # capacity is not observable
+        if e.get("k") == "mcall" and name in ("remove", "swap_remove", "truncate", "drain") and (decl.startswith("alloc::vec::Vec") or c.startswith("alloc::vec::Vec")):
+            v = self.ev(e["recv"], env, depth)
+            args = [self.ev(a, env, depth) for a in e.get("args") or []]
+            if not isinstance(v, list):
+                raise Unsupported("Vec::%s on %r" % (name, v))
+            if name == "remove" and isinstance(args[0], int):
+                if not (0 <= args[0] < len(v)):
+                    raise Diverged("Vec::remove out of range")
+                return v.pop(args[0])
+            if name == "swap_remove" and isinstance(args[0], int):
+                if not (0 <= args[0] < len(v)):
+                    raise Diverged("Vec::swap_remove out of range")
+                x_ = v[args[0]]
+                v[args[0]] = v[-1]
+                v.pop()
+                return x_
+            if name == "truncate" and isinstance(args[0], int):
+                del v[args[0]:]
+                return ()
+            if name == "drain" and isinstance(args[0], _Range):
+                lo = 0 if args[0].start is None else args[0].start
+                hi = len(v) if args[0].end is None else args[0].end + (1 if args[0].inclusive else 0)
+                out_ = v[lo:hi]
+                del v[lo:hi]
+                return out_
+            raise Unsupported("Vec::%s" % name)
+        if e.get("k") == "mcall" and name in ("push", "pop", "insert", "extend", "append", "clear") and (
+                decl.startswith("alloc::vec::Vec") or c.startswith("alloc::vec::Vec") or c.startswith("<alloc::vec::Vec<")):
             v = self.ev(e["recv"], env, depth)
             if name == "clear" and isinstance(v, Opaque) and self.free_opaque and not e.get("args"):
                 self.store(e["recv"], [], env, depth)      # whatever the vector held, it is empty now
@@ -1050,6 +1169,11 @@ class Interp:
                 return ()
             if name == "pop":
                 return ("__some", v.pop()) if v else None
+            if name == "insert" and len(args) == 2 and isinstance(args[0], int):
+                if not (0 <= args[0] <= len(v)):
+                    raise Diverged("Vec::insert out of range")
+                v.insert(args[0], args[1])
+                return ()
             if name == "clear":
                 del v[:]
                 return ()
@@ -1134,6 +1258,22 @@ CHAR_MODEL = {
     _CM + "to_ascii_uppercase": lambda a: Ch(a[0].c.upper() if a[0].c.isascii() else a[0].c),
     _CM + "len_utf8": lambda a: len(a[0].c.encode("utf-8")),
 }
+
+
+class _Range:
+    """a..b / a.. / ..b / a..=b"""
+    __slots__ = ("start", "end", "inclusive")
+
+    def __init__(self, start, end, inclusive):
+        self.start, self.end, self.inclusive = start, end, inclusive
+
+    def __repr__(self):
+        return "%s..%s%s" % ("" if self.start is None else self.start, "=" if self.inclusive else "", "" if self.end is None else self.end)
+
+    def items(self):
+        if not isinstance(self.start, int) or not isinstance(self.end, int):
+            raise Unsupported("iteration over an open range")
+        return list(range(self.start, self.end + (1 if self.inclusive else 0)))
 
 
 class _ChunksExact(list):
